@@ -21,7 +21,7 @@ from ..gen import flowjson as FJ
 from ..gen import sheets as G
 
 MANIFEST = dict(
-    text="Proof: (1) Lean theorem roundtrip_equiv_of_cert (validated bisimulation certificate ⇒ equal traces for every contact input sequence at the observation level of C04's statement: action content, operands, tests, arguments, test order, category names, timeouts, destinations) applied by the driver to each original flow and the flow recompiled from the REAL files written by flows_to_sheets (csv/xlsx × strip_uuids × numbered); plus per-flow checks of uuid / node-grouping preservation without --strip_uuids. (2) 'same actions with the same content' is proved universally on a Lean model of the action codec (Rpft/ActionCodec.lean: toFields = Action.get_row_model_fields of every action class + FlowRowModel validation; ofFields = FlowParser._get_row_action / _get_row_node): theorem action_roundtrip — for EVERY action inside the explicit decidable predicate Expressible (unbounded texts, attachment / quick-reply / variable lists, header and amount dictionaries) the exported row fields compile back to exactly that one action, content equal up to the invented action / templating-instance uuid; expressible_iff_roundtrip — Expressible is EXACTLY the set of actions that come back intact (so no clause can be dropped), with a kernel-checked negative witness per clause (needs_…) replayed on the real code; action_roundtrip_merged — the same for rows merged into an existing node (compiled by _get_row_action alone); constants tied by tables_agree_actcodec. exported_row_ids_unique (both id modes). Universal over whole flows only per explored flow (C04_full visible).",
+    text="Proof: (1) Lean theorem roundtrip_equiv_of_cert (validated bisimulation certificate ⇒ equal traces for every contact input sequence at the observation level of C04's statement: action content, operands, tests, arguments, test order, category names, timeouts, destinations) applied by the driver to each original flow and the flow recompiled from the REAL files written by flows_to_sheets (csv/xlsx × strip_uuids × numbered); plus per-flow checks of uuid / node-grouping preservation without --strip_uuids. (2) 'same actions with the same content' is proved universally on a Lean model of the action codec (Rpft/ActionCodec.lean: toFields = Action.get_row_model_fields of every action class + FlowRowModel validation; ofFields = FlowParser._get_row_action / _get_row_node): theorem action_roundtrip — for EVERY action inside the explicit decidable predicate Expressible (unbounded texts, attachment / quick-reply / variable lists, header and amount dictionaries) the exported row fields compile back to exactly that one action, content equal up to the invented action / templating-instance uuid; expressible_iff_roundtrip — Expressible is EXACTLY the set of actions that come back intact (so no clause can be dropped), with a kernel-checked negative witness per clause (needs_…) replayed on the real code; action_roundtrip_merged — the same for rows merged into an existing node (compiled by _get_row_action alone); constants tied by tables_agree_actcodec. exported_row_ids_unique (both id modes). (3) The EXPORTER preserves the flow's graph, universally (Props/C04_Graph.lean, on the exporter model Rpft/Export.lean that the C17 check ties to the real to_rows on every generated flow): the sheet is READ as a graph the way the sheet compiler resolves it (Rpft/ExportGraph.lean: an edge cell leaves the row named in `from` and enters its own row, on a go_to row the row named there; rows top to bottom, cells left to right = the order in which a router gets its cases back) and for EVERY flow (joins, cycles, self loops, parallel edges, unreachable nodes, duplicate uuids, dangling exits; unbounded) — export_preserves_graph: the node rows of the sheet are exactly the rows of the nodes reachable from the first node, each node once, rows consecutive and in order with their content (payloads_preserved, unreachable_not_exported), and the graph read from the sheet is, as a multiset, exactly: the start edge, the blank edges chaining the rows of one node, and ONE edge per exit that has a destination, with the exit's label, from the node's LAST row to the FIRST row of the destination node, directly or through a go_to row with exactly one edge and one target (out_edges_perm, exit_target_exported, export_no_invented_edges); exits that lead nowhere leave no trace (export_drops_dangling_exits = finding F-C04-a as a theorem, witness dangling_category_vanishes). Rows of one node: the compiler's merge rule (a row joins the node its _nodeId names iff it has exactly one edge, unconditional, from a row of that node) regroups the rows of an exported sheet exactly as the exporter grouped them (rows_grouped_as_exported), and the NODE graph read with that merging is the start edge plus one edge per connected exit between the reachable nodes (node_graph_preserved); without _nodeId every row is its own node (ungrouped_without_node_ids). ORDER of the edges leaving a node = order in which the recompiled router gets its tests: edges into the same row always keep their exit order (out_edges_same_target_order); the whole exit order is kept when no edge of the node was prepended to an existing row (out_edges_order_of_not_prepended; in particular on sheets without joins, out_edges_order_of_join_free; cycles and self loops allowed), and for a node without go_to edge it is kept IF AND ONLY IF the targets of its exits stand in the sheet in exit order (out_edges_order_iff_targets_sorted) — the negation is exactly finding F-C04-b, kernel-checked witness order_changes_at_join (t1→x, t2→y, y→x comes back as t2, t1), negative witnesses for every hypothesis. Errors: export_ok_iff (accepted iff every reachable node has a row model and every reachable exit names a node), export_error_cases / export_noNode_iff / export_noRows_iff, stripped_error_iff (the id remapping never fails: every id a row mentions is the id of a row). export_preserves_graph_stripped: the final rows (readable or numbered ids) are the temp-id rows renamed by a function injective on the row ids that never yields the literal start, so every statement holds for the final sheet. Tie: the Lean reading (driver op export.graph) of the REAL rows of the real to_rows (both id modes) is compared on every generated flow of the flow stream (also outside Expressible) with the real flow's edge list and with each of these statements. Universal over whole flows (exporter + cells + compiler composed) only per explored flow (C04_full visible).",
     ref="§5 C04",
     note="Trusts: Lean kernel; certificate search untrusted; harness canonicalisers (flows.canon_flow, actcodec.canon_action); Python mirror of the exporter DFS (gen/flowjson.py order_stable) defines the OrderStable part of the flow domain; CPython float(repr(x)) == x (a float amount is carried as its repr text); the cell layer between row model and sheet is C07's model — here it is exercised on the real code only (direct oracle through the real RowDataSheet / SheetParser, single row and shared sheet). Action codec model is tied on generated actions of every kind (mostly expressible + one-clause-broken + pass-through types) and on generated row fields (valid and malformed) with ASCII-cased names and ASCII digits. Flow domain `Expressible` (gen/flowjson.py docstring); action domain `ActionCodec.Expressible`. Known findings exercised deterministically outside the main streams: F-C04-a (unconnected conditional categories vanish), F-C04-b (test order at joins), F-C04-d (webhook headers), F-C04-e (group-split category names), F-C04-f (webhook body next to a message_text column), F-C04-g (only the first group of a multi-group action is compiled), F-C04-h (field key regenerated from the field name), F-C04-i (set_contact_channel exported under message_text), F-C04-j (templating variables padded to the longest list of the sheet).",
     technique="Lean 4 proof of certificate soundness + verified checker on original vs recompiled-from-real-files flow; Lean 4 proof of the action codec round trip (all expressible actions) + differential tie and direct oracle on the real export / compile code",
@@ -108,6 +108,106 @@ def check_one(drv, doc, fmt, strip, numbered, workdir):
     return None
 
 
+def graph_tie(drv, doc, bump=lambda k, v=1: None):
+    """Props/C04_Graph.lean on the REAL exporter output.  The Lean READING of a sheet as a graph
+    (Rpft/ExportGraph.lean: edgesOfS = edge cells resolved the way the sheet compiler resolves them, groupRows =
+    node merging by _nodeId, nodeEdges; driver op export.graph) is applied to the rows the REAL to_rows returns
+    (both id modes) and compared with the REAL flow's edge list (nodes reachable from the first node, exits with a
+    destination, find_node = first node with that uuid) and with the statements of the theorems: nodes of the sheet
+    = reachable nodes, each once; node graph read from the sheet = start edge + one edge per connected exit
+    (multiset: export_preserves_graph, no invented edge, dangling exits dropped); edges into the same node keep
+    their exit order (out_edges_same_target_order); exit order kept when no edge of the node was prepended
+    (out_edges_order_of_not_prepended); for nodes without go_to edge: exit order kept IFF the targets stand in the
+    sheet in exit order (out_edges_order_iff_targets_sorted, = finding F-C04-b).  Returns the disagreements."""
+    import collections
+
+    from rpft.rapidpro.models.containers import RapidProContainer
+
+    from . import c17
+
+    out = []
+    for fi in range(len(doc["flows"])):
+        try:
+            nodes = c17.model_input(RapidProContainer.from_dict(doc).flows[fi])
+        except Exception:  # noqa: BLE001 — a node the real objects cannot describe (counted by C17)
+            continue
+        first = {}
+        for n in nodes:
+            first.setdefault(n["uuid"], n)
+        reach, todo, ok = [], ([nodes[0]["uuid"]] if nodes else []), True
+        while todo:
+            u = todo.pop()
+            if u in reach:
+                continue
+            if u not in first:
+                ok = False
+                break
+            reach.append(u)
+            todo += [d for _, d in first[u]["edges"] if d]
+        if not ok or not nodes or any(not first[u]["rows"] for u in reach):
+            bump("graph.flow_not_exportable")        # export_ok_iff: the real to_rows raises (tied by C17)
+            continue
+        want = {u: [(lab, d) for lab, d in first[u]["edges"] if d] for u in reach}
+        bump("graph.exits_leading_nowhere", sum(1 for u in reach for _, d in first[u]["edges"] if not d))
+        bump("graph.unreachable_nodes", len(set(first) - set(reach)))
+        for numbered in (False, True):
+            rows = RapidProContainer.from_dict(doc).flows[fi].to_rows(numbered)
+            req = {"op": "export.graph", "rows": [
+                {"id": r.row_id, "node": r.node_uuid or None, "edges": [[e.from_, c17._label(e.condition)] for e in r.edges],
+                 "goto": list(r.mainarg_destination_row_ids)} for r in rows]}
+            ans = drv.results([req])[0]
+            ctx = {"flow": doc["flows"][fi].get("name"), "numbered": numbered}
+            if "__error__" in ans:
+                raise core.Infra(str(ans))
+            bump("graph.sheets_read")
+            if any((r.type == "go_to") != bool(r.mainarg_destination_row_ids) for r in rows):
+                out.append({"what": "export graph: a go_to row without destination, or a node row with one", **ctx})
+                continue
+            pos = {r.row_id: i for i, r in enumerate(rows)}
+            node_of = {r.row_id: r.node_uuid for r in rows if r.type != "go_to"}
+            rep = dict(map(tuple, ans["groups"]))
+            seen, last = {}, {}
+            for r in rows:
+                if r.type != "go_to":
+                    seen.setdefault(r.node_uuid, r.row_id)
+                    last[r.node_uuid] = r.row_id
+                    if rep.get(r.row_id) != seen[r.node_uuid]:   # the compiler's merge rule regroups the rows as the exporter grouped them
+                        out.append({"what": "export graph: a row is not merged into the node its _nodeId names", "row": r.row_id, "merged_into": rep.get(r.row_id), **ctx})
+            if len(seen) != len(reach) or set(seen) != set(reach):
+                out.append({"what": "export graph: the nodes of the sheet are not the reachable nodes", "sheet": list(seen), "reachable": reach, **ctx})
+                continue
+            got = collections.Counter((node_of.get(s) if s is not None else None, lab, node_of.get(d)) for s, lab, d in ans["node_edges"])
+            exp = collections.Counter([(None, "", nodes[0]["uuid"])] + [(u, lab, d) for u in reach for lab, d in want[u]])
+            if got != exp:
+                out.append({"what": "export graph: the graph read from the sheet differs from the flow's edge list",
+                            "only_in_sheet": [list(k) for k in (got - exp)][:5], "only_in_flow": [list(k) for k in (exp - got)][:5], **ctx})
+                continue
+            bump("graph.edges_compared", sum(exp.values()))
+            changed_tests = False
+            for u in reach:
+                sheet = [(lab, node_of[d]) for s, lab, d in ans["edges"] if s == last[u]]
+                exits = want[u]
+                same = sheet == exits
+                changed_tests = changed_tests or [x for x in sheet if x[0]] != [x for x in exits if x[0]]
+                if len(exits) > 1:
+                    bump("graph.order.preserved_nodes" if same else "graph.order.changed_nodes")
+                for t in set(d for _, d in exits):
+                    if [a for a, b in sheet if b == t] != [a for a, b in exits if b == t]:
+                        out.append({"what": "export graph: edges into the same node do not keep their exit order", "node": u, "target": t, **ctx})
+                if not same and not any(e.from_ == last[u] for r in rows for e in r.edges[:-1]):
+                    out.append({"what": "export graph: no edge of the node was prepended, yet its exit order changed", "node": u, "sheet": sheet, "exits": exits, **ctx})
+                if not any(e.from_ == last[u] for r in rows if r.type == "go_to" for e in r.edges):
+                    p = [pos[seen[d]] for _, d in exits]
+                    srt = all(p[i] <= p[i + 1] for i in range(len(p) - 1))
+                    if srt != same:
+                        out.append({"what": "export graph: exit order kept iff targets stand in exit order — violated", "node": u, "targets_sorted": srt, "order_kept": same, **ctx})
+                    if len(exits) > 1:
+                        bump("graph.order.exact_criterion_applies")
+            if not numbered and not FJ.order_stable(doc["flows"][fi]):
+                bump("graph.not_order_stable.reading_shows_permuted_tests" if changed_tests else "graph.not_order_stable.reading_shows_same_tests")
+    return out
+
+
 CONFIGS = [(f, s, n) for f in ("csv", "xlsx") for s in (False, True) for n in (False, True)]
 
 
@@ -170,7 +270,7 @@ def worker(args):
     rng = random.Random(seed)
     drv = core.Driver()
     stats = {}
-    bad, keys = [], []
+    bad, keys, ties = [], [], []
     sample = None
 
     def bump(k, v=1):
@@ -186,6 +286,8 @@ def worker(args):
             if doc is None:
                 continue
         bump("generated." + src)
+        gt = graph_tie(drv, doc, bump)
+        ties += [dict(t, document=doc) for t in gt[:2]]
         if not expressible(doc):
             bump("outside_expressible." + src)
             continue
@@ -199,7 +301,7 @@ def worker(args):
                     indeg[e["destination_uuid"]] = indeg.get(e["destination_uuid"], 0) + 1
         bump("flows_with_join", any(v > 1 for v in indeg.values()))
         bump("flows_with_router", any(nd.get("router") for nd in f["nodes"]))
-        cfgs = CONFIGS if all_configs else rng.sample(CONFIGS, 2)
+        cfgs = CONFIGS if (all_configs or gt) else rng.sample(CONFIGS, 2)
         keys.append(json.dumps(doc, sort_keys=True))
         if sample is None:
             sample = {"flow": f["nodes"][:2], "configs": cfgs}
@@ -209,7 +311,7 @@ def worker(args):
             if fail:
                 bad.append({"doc": doc, "config": [fmt, strip, numbered], "fail": fail, "src": src})
                 break
-    return {"stats": stats, "bad": bad[:8], "keys": keys, "sample": sample}
+    return {"stats": stats, "bad": bad[:8], "keys": keys, "sample": sample, "ties": ties[:4]}
 
 
 def shrink_doc(drv, doc, cfg, workdir):
@@ -240,6 +342,89 @@ def shrink_doc(drv, doc, cfg, workdir):
                 cur, det, changed = cand, d, True
                 break
     return cur, det
+
+
+# ---- corpus: small hand-made flows (shapes that past failures needed), run first, all eight configurations
+
+
+def corpus_docs():
+    n = [0]
+
+    def u():
+        n[0] += 1
+        return "00000000-0000-4000-8000-%012d" % n[0]
+
+    def msg(text):
+        return {"uuid": u(), "type": "send_msg", "text": text, "attachments": [], "quick_replies": []}
+
+    def basic(uid, actions, dest):
+        return {"uuid": uid, "actions": actions, "exits": [{"uuid": u(), "destination_uuid": dest}]}
+
+    def wait(uid, tests, default_dest, filed_under_default=None):
+        cats, exits, cases = [], [], []
+        for k, (ty, arg, dest) in enumerate(tests):
+            e = {"uuid": u(), "destination_uuid": dest}
+            c = {"uuid": u(), "name": f"Cat {k}", "exit_uuid": e["uuid"]}
+            cats.append(c); exits.append(e)
+            cases.append({"uuid": u(), "type": ty, "arguments": [arg], "category_uuid": c["uuid"]})
+        de = {"uuid": u(), "destination_uuid": default_dest}
+        dc = {"uuid": u(), "name": "Other", "exit_uuid": de["uuid"]}
+        cats.append(dc); exits.append(de)
+        if filed_under_default:
+            cases.append({"uuid": u(), "type": filed_under_default[0], "arguments": [filed_under_default[1]], "category_uuid": dc["uuid"]})
+        return {"uuid": uid, "actions": [], "exits": exits,
+                "router": {"type": "switch", "operand": "@input.text", "cases": cases, "categories": cats, "default_category_uuid": dc["uuid"],
+                           "wait": {"type": "msg"}, "result_name": "answer"}}
+
+    def doc(nodes, groups=()):
+        flow = {"uuid": u(), "name": "corpus flow", "language": "eng", "type": "messaging", "spec_version": "13.1.0", "revision": 0,
+                "expire_after_minutes": 10080, "localization": {}, "nodes": nodes, "_ui": {"nodes": {}}}
+        return {"campaigns": [], "fields": [], "flows": [flow], "groups": [{"name": g, "uuid": gu} for g, gu in groups],
+                "site": "https://rapidpro.idems.international", "triggers": [], "version": "13"}
+
+    docs = []
+    # (1) a diamond: a router branches into a node with several actions and into a single-action node with the same
+    # readable name; both join into a common successor; plus a cycle back to the start (both branch orders)
+    for order in (0, 1):
+        r0, m, nn, j, s0 = u(), u(), u(), u(), u()
+        multi = basic(m, [msg("Thank you for your feedback, one"), msg("second text")], j)
+        single = basic(nn, [msg("Thank you for your feedback, two")], j)
+        tests = [("has_any_word", "long", m), ("has_any_word", "short", nn)]
+        if order:
+            tests = [("has_any_word", "short", nn), ("has_any_word", "long", m)]
+        docs.append((f"diamond with a multi-action node and an equally named node (order {order})", doc([
+            basic(s0, [msg("start here")], r0),
+            wait(r0, tests, j),
+            multi if not order else single,
+            single if not order else multi,
+            basic(j, [msg("Thank you for your feedback, joined"), msg("and more")], None)])))
+    # (2) a rule filed under the router's default category
+    a, b, c = u(), u(), u()
+    docs.append(("rule filed under the default category", doc([
+        basic(a, [msg("hello")], b),
+        wait(b, [("has_any_word", "yes", c)], c, filed_under_default=("has_phrase", "skip later")),
+        basic(c, [msg("bye")], None)])))
+    # (3) group names with the cell separators
+    a, b = u(), u()
+    g1, g2 = u(), u()
+    docs.append(("group names with separators", doc([
+        basic(a, [{"uuid": u(), "type": "add_contact_groups", "groups": [{"name": "Parents; Teachers", "uuid": g1}]}], b),
+        basic(b, [{"uuid": u(), "type": "remove_contact_groups", "groups": [{"name": "Staff|Volunteers", "uuid": g2}]}], None)],
+        groups=[("Parents; Teachers", g1), ("Staff|Volunteers", g2)])))
+    return docs
+
+
+def corpus_stream(drv, ck, workdir):
+    for name, d in corpus_docs():
+        if not expressible(d):
+            raise core.Infra(f"corpus flow {name!r} is outside expressible()")
+        ck.case("corpus " + name, nontrivial=True)
+        ck.count("corpus_flows")
+        for fmt, strip, numbered in CONFIGS:
+            fail = check_one(drv, d, fmt, strip, numbered, workdir)
+            if fail:
+                ck.violation(f"corpus flow ({name}): {fail['what']}", {"flow": d, "config": [fmt, strip, numbered], "detail": fail})
+                break
 
 
 # ---- known-finding streams (deterministic)
@@ -342,6 +527,15 @@ def run_action_codec(ck: core.Check, quick: bool):
     get_row_model_fields / _get_row_action / _get_row_node on generated actions of every kind and on
     generated row fields; C = every action inside `Expressible` comes back from its own row on the real
     code (row model, --strip_uuids row, real cell layer alone and in a shared sheet)."""
+    from rpft.parsers.creation.flowparser import FlowParser
+
+    if not (callable(getattr(FlowParser, "_get_row_action", None)) and callable(getattr(FlowParser, "_get_row_node", None))):
+        # the codec streams read the compile side of ONE row through these two (private) methods; a tree that
+        # does not have them cannot be observed at this level: the correspondence is broken (not a violation), the
+        # whole-flow round trip below still evaluates the property itself on this tree
+        ck.tie_break("action codec: FlowParser._get_row_action / _get_row_node (the harness' handle on the compile side of one row) do not exist in this tree",
+                     {"note": "renamed or restructured? the whole-flow round-trip stream is unaffected"})
+        return
     AC.known_streams(ck)
     AC.witness_stream(ck)
     n_act, n_rows = (260, 220) if quick else (1300, 1100)
@@ -398,11 +592,13 @@ def run(ck: core.Check):
                       "float(repr(x)) == x in CPython: a float airtime amount is carried by the model as its repr text",
                       "the action codec model lower-cases ASCII only (generate_field_key) and reads ASCII digits only (int()): generated names / amounts stay inside"]
     ck.partial_gap = ["C04_full (all expressible flows) not proved on a Lean exporter/compiler model; decided per explored flow by the verified checker",
-                      "action_roundtrip is per action at the row-model level (FlowRowModel fields); the cell layer (row model ↔ cells, C07) and node grouping / edges (C17 exporter model, C01 compiler model) are not composed with it in Lean",
+                      "action_roundtrip is per action at the row-model level (FlowRowModel fields); the cell layer (row model ↔ cells, C07) and the compiler model (C01) are not composed with it in Lean",
+                      "exporter half at the graph level is proved (Props/C04_Graph.lean: the graph READ from the exported sheet the way the compiler resolves it is the flow's reachable graph, nodes / payload rows / labels / destinations / joins / cycles, with the exact order relation); NOT proved: that the sheet COMPILER model (Rpft/Compile.lean) builds from that reading a flow bisimilar to the original (the composition exporter ∘ cells ∘ compiler; the reading functions edgesOfS / groupRows restate flowparser.py's edge resolution and node merging and are tied to the real exporter output, not derived from Rpft/Compile.lean), row payload ↔ action / router content beyond action_roundtrip; for a node with go_to edges the order criterion is sufficient (not prepended), not exact",
                       "result names of non-wait routers and UI data are not compared (not in the statement's list)"]
     workdir = tempfile.mkdtemp(prefix="c04_")
     try:
         drv = core.Driver()
+        corpus_stream(drv, ck, workdir)
         known_streams(drv, ck, workdir)
         run_action_codec(ck, quick)
         n_total = 1920 if quick else 9600
@@ -416,6 +612,9 @@ def run(ck: core.Check):
                 ck.case(key, nontrivial=True)
             if r["sample"] and len(ck.samples) < 2:
                 ck.samples.append(r["sample"])
+            for t in r.get("ties", []):      # Lean reading of the real rows vs the real flow's edge list (the flow went through all 8 configurations)
+                ck.tie_break(t.pop("what"), t)
+                ck.search_ran = True
             for b in r["bad"]:
                 if len(ck.violations) >= 2:
                     ck.violation(b["fail"]["what"] + " (not shrunk)", {"document": b["doc"], "config": {"format": b["config"][0], "strip_uuids": b["config"][1], "numbered": b["config"][2]}, "detail": b["fail"], "pad": "#" * 4000})
